@@ -7,16 +7,17 @@ CONSTANTS
     PropVals = {1, 2}
     NewComps = {"rec1", "dflt", "dfltL"}
     WithComps = {"rec2", "dflt", "dfltL"}
-    CwComps = {"rec3", "dflt", "dfltL", "ok", "err"}
+    CwComps = {"rec3", "dflt", "dfltL", "ok", "err", "errM"}
     Scripts <- MC_ScriptsThorough
-    Forms = {"none", "plain", "result", "guard"}
+    Forms = {"none", "plain", "setup", "result", "resultM", "guard", "newspan"}
     Frames = {"in", "out"}
+    MaxLen = 0
     F2Bug = FALSE
     Emit = TRUE
 VIEW view
 INVARIANTS TypeOK AtMostOnce ExactlyOnceIffEnabledStarted EnabledIsFilterVerdict
     ReturnValueTruthful ExtentIsStartToEnd CarriesLatestData PanicAddsErrAndLevel
-    RefinesStatement LiveGuardWhole
+    RefinesStatement LiveGuardWhole SetupBracketsSpan
 PROPERTY ProbesAgree
 ACTION_CONSTRAINT EmitReplay
 CHECK_DEADLOCK FALSE
